@@ -2,6 +2,8 @@
 //!
 //! Learn more about Humphrey Server [here](https://humphrey.whenderson.dev/server/index.html).
 
+#![allow(unexpected_cfgs)]
+
 #![warn(missing_docs)]
 
 pub mod config;
